@@ -281,6 +281,9 @@ func Override(target string, fn interface{}) {}
 
 func LocksHeld() int { return 0 }
 
+// Spawned: symbolically the number of goroutines started (and not run inline) so far on this path.
+func Spawned() int { return 0 }
+
 // LockOrderCycle: symbolically, whether the locks taken so far on this path were taken in
 // contradictory orders by different calls (natively the harness has to provoke the deadlock itself).
 func LockOrderCycle() bool { return false }
